@@ -103,6 +103,7 @@ def mtreeStep (s : MT) (toks : List String) : MT × String :=
       | none => (⟨s.tree, none⟩, "nostore")
       | some st' => (⟨s.tree, some st'⟩, "ok")
   | ["resume", _] => (s, "ok")     -- harness-side: oracles switched on again after a crash scenario
+  | ["recheck"] => (s, "ok")       -- harness-side: results handed out earlier are re-read and saved states reloaded
   | ["incl", m, n] => (s, res showList (inclusionProofR Hf s.tree.size rd (Proto.natOf m) (Proto.natOf n)))
   | ["cons", m, n] => (s, res (fun o => match o with | none => "nil" | some p => showList p)
       (consistencyProofR Hf s.tree.size rd (Proto.natOf m) (Proto.natOf n)))
@@ -165,6 +166,12 @@ def mserveTreeStep (toks : List String) : Option String :=
     | none => some "bad-op"
     | some xs => some (showLevels (merkleHashes Hf xs (Proto.natOf d)))
   | ["depth", n] => some (toString (depth (Proto.natOf n)))
+  | ["hleaf", d] => match Hex.ofHex d with
+    | none => some "bad-op"
+    | some d => some s!"{Hex.toHex (hashLeaf Hf d)} {res Hex.toHex (hashFullTree Hf [hashLeaf Hf d])}"
+  | ["hchild", l, r] => match Hex.ofHex l, Hex.ofHex r with
+    | some l, some r => some (Hex.toHex (hashChildren Hf l r))
+    | _, _ => some "bad-op"
   | ["leafpath", d, hs] => match Hex.ofHex d, parseHashes hs with
     | some d, some xs => some (res Hex.showHex (merkleLeafPath Hf d xs))
     | _, _ => some "bad-op"
